@@ -10,7 +10,7 @@ TRUST = ("trusted base: the simulator itself (executor, transports, scripted bro
          "vendored futures-util. Seeded sampling: a clean batch is evidence, not proof.")
 
 CHECKS = {
- "C05": ("exploration", "3.C05", "seeded deterministic simulation: conformant-ops profile, oracle over recorded history (completion causality + content attribution per operation)",
+ "C05": ("exploration", "3.C05", "seeded deterministic simulation: conformant-ops profile (identifier jumps, coalescing reads), oracle over recorded history (completion causality + content attribution per operation); plus operations started concurrently from caller threads under the shuttle controlled scheduler and acknowledged in reverse order",
          "Exploration by seeded simulation of concurrent operations from several handle clones against a conformant scripted broker, with random acknowledgement order/delay, chunked reads, partial writes and three select! policies; each run is re-executed from its recorded scenario and judged over the history. Right level because the property quantifies over interleavings that only a controlled executor can sample."),
  "C06": ("exploration", "3.C06", "seeded deterministic simulation: publish-only conformant profile with every PUBACK/PUBREC/PUBCOMP reason code; wire-trace + result oracle",
          "Exploration: QoS 0/1/2 publishes with all legal reason codes, delayed polling of the QoS 2 future between its phases; oracle reads the wire through the reference decoder (DUP, fields, PUBREL causality/count) and the publish() results."),
@@ -62,7 +62,7 @@ def entry(pid, v):
 
 def fixups(m):
     for c in m["checks"]:
-        if c["property_id"] in ("C11", "C07"):
+        if c["property_id"] in ("C11", "C07", "C05"):
             c["replay_cmd_template"] = "/verif/sim/target/release/posim replay {path}   (for *.schedule files: /verif/threads/target/release/posim-threads replay {path})"
     return m
 
@@ -77,7 +77,7 @@ manifest = {
         "add_only": False,
     },
     "engines": [
-        {"name": "posim-threads", "path": "/verif/threads", "serves_properties": ["C07", "C11"],
+        {"name": "posim-threads", "path": "/verif/threads", "serves_properties": ["C05", "C07", "C11"],
          "kind_free_text": "shuttle 0.9.3 controlled thread scheduler (random and PCT) driving caller threads at the identifier allocation / request submission; the context, broker and wire are then served and judged inside posim"},
         {"name": "posim", "path": "/verif/sim", "serves_properties": sorted(CHECKS.keys()),
          "kind_free_text": "deterministic discrete-event simulator (own executor, AsyncRead/AsyncWrite transports, scripted MQTT 5 broker with independent codec, simulated clock, hooked select! arbiter) with seeded fault injection, ddmin minimiser and replay files"},
